@@ -322,6 +322,41 @@ def run(res, tier):
     SS.setfilter_order_rule(res, fx, 'SUBSCRIBE-PAIR')
     SS.raw_from_ref_rule(res, fx, 'SUBSCRIBE-PAIR')
     SS.subscribe_traversal_nofilter_rule(res, fx, 'SUBSCRIBE-PAIR')
+    # ---- LEAVE-ALL: "holds exactly the nodes that match its subscriptions": a node leaves the mirror only when NO subscription matches it any more
+    from msa import guards as G
+    res.rule('LEAVE-ALL', 'where a StorageReflectSession method itself raises NODE_CHANGE_FLAG_ISBEINGREMOVED for a node that stays in the tree (SetBit / a NodeChangeFlags value built from it), that point is '
+                          'reached only where `_subscriptions.MatchesNode(node, …)` — the test over ALL subscriptions of the session — was evaluated and found false', floor=2)
+    n_la = 0
+    for g in sorted((g for g in fx.funcs.values() if g.full and g.q.startswith(SRS + '::')), key=lambda g: (g.file, g.line)):
+        for x in g.walk():
+            if x['k'] != 'DeclRefExpr' or x.get('n') != 'NODE_CHANGE_FLAG_ISBEINGREMOVED':
+                continue
+            ctx = None
+            for a in x.ancestors():
+                if a.is_call() and (a.get('q') or '').split('::')[-1] in ('IsBitSet', 'AreAnyOfTheseBitsSet', 'AreAllOfTheseBitsSet'):
+                    ctx = 'test'
+                    break
+                if a.is_call() and (a.get('q') or '').split('::')[-1] in ('SetBit', 'SetBits', 'WithBit', 'WithBits'):
+                    ctx = 'raise'
+                    break
+                if a['k'] in ('CXXConstructExpr', 'CXXTemporaryObjectExpr', 'CXXFunctionalCastExpr') and 'BitChord' in (a.type() or '') + (a.get('q') or ''):
+                    ctx = 'raise'
+                    break
+            if ctx != 'raise':
+                continue
+            n_la += 1
+            okm = False
+            for (cn, t) in G.atoms_at(g, x):
+                core, pol = A.bool_polarity(cn, t)
+                if pol is False and core.is_call() and (core.get('q') or '').endswith('::MatchesNode') and core.receiver() is not None and A.strip_casts(core.receiver()).get('n') == '_subscriptions':
+                    okm = True
+            res.ob('LEAVE-ALL', g.where(x), '%s line %s: the removed-flag is raised only where no subscription of the session matches the node' % (g.q.split('::')[-1], x.get('l')), okm, function=g.q,
+                   key='LEAVE-ALL|%s' % g.q,
+                   message='%s tells the subscriber that a node has left its mirror (NODE_CHANGE_FLAG_ISBEINGREMOVED) without having asked `_subscriptions.MatchesNode()` whether another subscription of the '
+                           'same session still matches it: S subscribes to /*/*/n* and /*/*/*1, then changes the filter of the first to (v > 10): the server sends "removed: n1" for n1{v=5} although '
+                           'SUBSCRIBE:/*/*/*1 still matches it, and nothing re-sends the node — the mirror misses a matching node at quiescence' % g.q)
+    if n_la < 2:
+        raise AnalysisBroken('LEAVE-ALL: only %d places raise NODE_CHANGE_FLAG_ISBEINGREMOVED in StorageReflectSession' % n_la)
     match_recheck_rule(res, fx, 'DELIVERY')       # the initial fetch after a subscription uses the same traversal: conspiring patterns put unsubscribed nodes into the mirror
     res.explanation = ('Static decision of the structural half of subscriber convergence: payload writes, attachment and removal of nodes are each paired with the notification that tells subscribers, in the order '
                        'that keeps the per-node subscriber marks valid while the notification walks them; the subscription table and the per-node reference marks are changed together with opposite, path-identical '
